@@ -1098,10 +1098,51 @@ def check_upgrade(ctx):
     pol = f.params[0]
     ok = False
     n = 0
-    order_bad = snap_bad = alias_bad = None
+    order_bad = snap_bad = alias_bad = live_bad = None
+    live_cand, live_free = [], set()
     for p in t.paths:
         stores = [e for e in p.events if e.kind == 'store' and isinstance(
             e.node, ast.Subscript) and U(e.node.value) == pol]
+        # several new policies may name the same deprecated policy: an
+        # iteration that asks the *live* mapping whether the deprecated name
+        # is there and removes it in the same iteration leaves nothing for
+        # the next policy that names it
+        loops0 = [i for i, c in enumerate(p.conds) if c.kind == 'loop']
+        for e in stores:
+            key = U(e.node.slice)
+            if not key.endswith('.name') or 'deprecated_rule' in key:
+                continue
+            subj = key[:-len('.name')]
+            dep = subj + '.deprecated_rule.name'
+            live_guard = None
+            pos = (e.node.lineno, e.node.col_offset)
+            for c in p.conds[:e.nconds]:
+                x = t.expand(c.expr) if c.kind == 'test' else None
+                if c.kind == 'test' and isinstance(
+                        x, ast.Compare) and len(x.ops) == 1 and isinstance(
+                            x.ops[0], (ast.In, ast.NotIn)) and U(
+                                x.left) == dep and U(
+                                    x.comparators[0]) == pol:
+                    if c.pol == isinstance(x.ops[0], ast.In):
+                        live_guard = c
+                    else:
+                        # the move is also reached when the live mapping
+                        # lacks the name: the test gates something else
+                        live_free.add(pos)
+            if live_guard is None or not loops0:
+                continue
+            removed_here = '%s.pop(%s' % (pol, dep) in U(t.expand(e.value))
+            for x in p.events:
+                if getattr(x, 'nconds', 0) <= loops0[0]:
+                    continue
+                if x.kind == 'call' and method_call(x.node, 'pop') and U(
+                        method_call(x.node)[0]) == pol and x.node.args and \
+                        U(t.expand(x.node.args[0])) == dep:
+                    removed_here = True
+                if x.kind == 'del' and dep in U(x.node) and pol in U(x.node):
+                    removed_here = True
+            if removed_here:
+                live_cand.append((pos, e))
         for e in stores:
             n += 1
             key = U(e.node.slice)
@@ -1184,6 +1225,9 @@ def check_upgrade(ctx):
                                 if ev.sym == x.value.id]
                         if made and loops and made[0].nconds > loops[0]:
                             snap_bad = snap_bad or made[0]
+    for pos, e in live_cand:
+        if pos not in live_free:
+            live_bad = live_bad or e
     F = W.split(':')[0]
     ctx.ob('C18.UPGRADE', order_bad is None, '%s:%d' % (F, order_bad.line)
            if order_bad else W, f.qual, 'order of removing and writing',
@@ -1202,6 +1246,16 @@ def check_upgrade(ctx):
            'file suggests for a deprecated name and the enforcer resolves '
            'to the new default): the upgraded file says `new: rule:new`, a '
            'self-reference - every decision on it fails')
+    ctx.ob('C18.UPGRADE', live_bad is None, '%s:%d' % (F, live_bad.line)
+           if live_bad else W, f.qual, 'shared deprecated names',
+           'whether a deprecated name is overridden is not asked of the '
+           'mapping the same iteration removes it from'
+           if live_bad is None else
+           'the loop over the new policies asks the mapping being rewritten '
+           'whether the deprecated name is in it and removes the name in the '
+           'same iteration: a deprecated policy split into several new ones '
+           'is upgraded for the first only, the others fall back to their '
+           'defaults')
     ctx.ob('C18.UPGRADE', snap_bad is None, '%s:%d' % (F, snap_bad.line)
            if snap_bad else W, f.qual, 'snapshot of the operator\'s policy',
            'values are read from a copy taken before any rename'
